@@ -9,8 +9,8 @@ from checks.common import Check
 from checks.dbcommon import cfg_with, is_known, tla_bool
 
 PROP = "C12"
-KIND_ORDER = ["range", "hist", "other", "badname", "entry", "order", "beyond", "perturb", "remove", "rangehist",
-              "decoy"]
+KIND_ORDER = ["range", "hist", "other", "badname", "entry", "order", "beyond", "perturb", "remove", "nonreg",
+              "rangehist", "live", "livecache", "decoy"]
 
 
 def _classes(recs):
@@ -43,6 +43,12 @@ def run(tier, seed):
         "the Merkle algorithms themselves are C09's subject",
         "the database of a node is <db>/immutable; a digest cache is only ever reused over the same unchanged files "
         "(as the property states)",
+        "an immutable file = a regular file <db>/immutable/<number>.<chunk|primary|secondary>; a directory or a "
+        "dangling link under such a name is no file; a symbolic link to a regular file is kept apart (the property does "
+        "not say whether it stands for the file: nodes holding one are only compared with nodes holding the same)",
+        "a result taken from an explicit cache that holds the digest of a file changed on disk since is not judged (the "
+        "statement promises cache independence over the same unchanged files only); a digester built without cache "
+        "provider is always judged, also when the same long-lived object computed before the files changed",
         "a computation that fails computes no root and is not constrained by the property (a stray "
         "<db>/immutable/abc.chunk makes the real digester fail: reported in the coverage, not a violation)",
         "readdir order is whatever the file system of /verif/work gives; both relative orders of the second "
@@ -60,6 +66,15 @@ def run(tier, seed):
     for cfg in (["MC_DbDigest_quick.cfg"] if q else ["MC_DbDigest_thorough.cfg"]):
         c.mc("db", "MC_DbDigest", cfg_with(c, cfg, now), name="nodes-" + cfg[len("MC_DbDigest_"):-4], workers=12,
              timeout=3400, heap="12g", coverage=False)
+    # one node whose files change on disk between the computations of its long-lived digester objects
+    # (byte change, other file's content, removal, addition), restarts, and a second cold node at the end
+    c.mc("db", "MC_DbDigest", cfg_with(c, "MC_DbDigest_live_quick.cfg" if q else "MC_DbDigest_live_thorough.cfg", now),
+         name="live", workers=12, timeout=3400, heap="12g", coverage=False)
+    # a cache-less digester object that remembered digests between computations would be seen by the model
+    r = c.mc("db", "MC_DbDigest", cfg_with(c, "MC_DbDigest_live_memory.cfg", now), name="instance-memory-is-seen",
+             workers=4, timeout=600, coverage=False)
+    if r.violated != "Sensitive":
+        raise vlib.ToolError("the model does not reject a cache-less digester object with a memory")
     if known:
         # the proposed fix (prefer the direct child directory) closes the model without any excuse
         c.mc("db", "MC_DbDigest", "MC_DbDigest_fixed.cfg", name="proposed-fix", workers=8, timeout=1200)
@@ -78,7 +93,7 @@ def run(tier, seed):
         raise vlib.ToolError("GEN produced too few cases")
     # nodes with the same disk are consecutive (the harness then builds the directory once)
     cases.sort(key=lambda x: (KIND_ORDER.index(x["kind"]),
-                              json.dumps([x["imm"], x["other"], x["bad"], x["decoy"], x["order"]]),
+                              json.dumps([x["imm"], x["nonreg"], x["other"], x["bad"], x["decoy"], x["order"]]),
                               json.dumps(x, sort_keys=True)))
     cases_path = os.path.join(c.work, "cases.ndjson")
     vlib.write_ndjson(cases_path, cases)
@@ -109,6 +124,10 @@ def run(tier, seed):
         "range_computations_ok": sum(1 for x in ok if x["op"] == "range"),
         "range_warmed_histories": sum(1 for x in cases if x["kind"] == "rangehist"),
         "histories_with_non_prefix_warm_cache": sum(1 for x in cases if _non_prefix(x)),
+        "cacheless_after_files_changed": dict(collections.Counter(
+            x["afterChange"] for x in ok if not x["cache"] and x["afterChange"] != "none")),
+        "cached_stale_unjudged": sum(1 for x in ok if x["stale"]),
+        "non_regular_entries_ok": dict(collections.Counter(k for x in ok for k in set(x["nonreg"]))),
         "decoy_first_ok": sum(1 for x in ok if x["decoy"] == "first" and x["entry"] == "db"),
         "decoy_after_ok": sum(1 for x in ok if x["decoy"] == "after"),
         "errors": dict(collections.Counter(x["kind"] for x in recs if x["res"] != "ok")),
@@ -116,7 +135,10 @@ def run(tier, seed):
     c.cov["stages"]["RUN:cases"]["coverage"] = cov
     if len(ok) < 1000 or cov["with_cache_ok"] < 100 or cov["by_kind_ok"].get("perturb", 0) < 100 \
             or cov["decoy_after_ok"] == 0 or cov["range_computations_ok"] < 500 \
-            or cov["histories_with_non_prefix_warm_cache"] < 100:
+            or cov["histories_with_non_prefix_warm_cache"] < 100 \
+            or cov["cacheless_after_files_changed"].get("same_object", 0) < 200 \
+            or cov["cacheless_after_files_changed"].get("new_object", 0) < 20 or cov["cached_stale_unjudged"] < 10 \
+            or min(cov["non_regular_entries_ok"].get(k, 0) for k in ("dir", "dangling", "link")) < 20:
         c.defer(f"vacuity: too few successful computations {cov}")
     c.sample(recs[0])
     c.sample([x for x in recs if x["kind"] == "perturb"][0])
